@@ -149,6 +149,7 @@ def cfgOf (kind : String) : BaseCfg :=
   match kind with
   | "social" => { social := true, federated := false, delegate := { social := true, federating := false } }
   | "federating" => { social := false, federated := true, delegate := { social := false, federating := true } }
+  | "none" => { social := false, federated := false, delegate := { social := false, federating := false } }
   | _ => { social := true, federated := true, delegate := { social := true, federating := true } }
 
 def handledJson : Handled → Json
